@@ -1,5 +1,227 @@
 package main
 
-import "verif/engine/core"
+// Thorough tier: the same calls under `strace -f`, so that access to the
+// outside is seen at the system-call level (also outside the sentinel
+// directory, also read-only opens).  One family case = one traced
+// sub-process running a slice of the iosafe regions; every region is
+// delimited by two marker system calls (openat of /C08MARK/b/<n> and
+// /C08MARK/e/<n>, which fail with ENOENT).  Inside a region no execve, no
+// write-mode or sentinel-path open, no unlink/rename/mkdir/link, no
+// socket/connect may occur — whoever issues it (golua or a child process).
 
-func straceFamily(funcs []fnRec, tuples []tuple) []*core.Family { return nil }
+import (
+	"bufio"
+	"fmt"
+	"os"
+	"os/exec"
+	"path/filepath"
+	"regexp"
+	"strconv"
+	"strings"
+	"syscall"
+
+	rt "github.com/arnodel/golua/runtime"
+
+	"verif/engine/core"
+)
+
+const straceShards = 32
+
+// required-flag subsets exercised under strace: iosafe alone, iosafe with the
+// two flags the IO library also declares, all four.
+var straceReq = []rt.ComplianceFlags{
+	rt.ComplyIoSafe,
+	rt.ComplyIoSafe | rt.ComplyCpuSafe | rt.ComplyMemSafe,
+	allFlags,
+}
+
+const traceSet = "trace=execve,execveat,openat,open,creat,unlink,unlinkat,rename,renameat,renameat2,mkdir,mkdirat,rmdir,link,linkat,symlink,symlinkat,truncate,socket,connect"
+
+type sCase struct {
+	fn, tp, sp int
+	req        rt.ComplianceFlags
+}
+
+func straceDecode(i uint64) sCase {
+	nS, nT, nR := uint64(len(spellings)), uint64(len(quickTuples)), uint64(len(straceReq))
+	var c sCase
+	c.sp = int(i % nS)
+	i /= nS
+	c.tp = int(i % nT)
+	i /= nT
+	c.req = straceReq[i%nR]
+	c.fn = int(i / nR)
+	return c
+}
+
+func straceTotal(nF int) uint64 {
+	return uint64(nF) * uint64(len(straceReq)) * uint64(len(quickTuples)) * uint64(len(spellings))
+}
+
+func straceShow(funcs []fnRec, i uint64) string {
+	c := straceDecode(i)
+	f := funcs[c.fn]
+	return fmt.Sprintf("fn=%s declared=%s required=%s args=%s spelling=%s", f.name, flagNames(f.declared), flagNames(c.req), quickTuples[c.tp], spellings[c.sp].name)
+}
+
+func mark(kind byte, n uint64) {
+	syscall.Open(fmt.Sprintf("/C08MARK/%c/%d", kind, n), syscall.O_RDONLY, 0)
+}
+
+// straceInner is the traced sub-process: regions shard, shard+of, ...
+func straceInner(shard, of uint64) {
+	funcs := discover()
+	total := straceTotal(len(funcs))
+	sent.init()
+	for i := shard; i < total; i += of {
+		c := straceDecode(i)
+		f := &funcs[c.fn]
+		func() {
+			defer func() { recover() }()
+			sent.ensure()
+			mc := newMachine()
+			closed := false
+			defer func() {
+				if !closed {
+					mc.close()
+				}
+			}()
+			mc.prepare(c.req)
+			fv, err := mc.resolve(funcs, f)
+			if err != nil {
+				return
+			}
+			bargs := spellArgs(mc, fv, quickTuples[c.tp], c.sp)
+			drainChildren()
+			mark('b', i)
+			mc.enter(i%2 == 1, c.req, bargs)
+			mc.close()
+			closed = true
+			drainChildren()
+			mark('e', i)
+			sent.note(sent.snap())
+		}()
+	}
+	sent.remove()
+}
+
+var (
+	reLine = regexp.MustCompile(`^(\d+)\s+(\w+)\((.*)$`)
+	reStr  = regexp.MustCompile(`"((?:[^"\\]|\\.)*)"`)
+)
+
+// classify returns the violated clause for a traced call inside a region ("" = fine).
+func classify(name, rest, sentRoot string) string {
+	switch name {
+	case "execve", "execveat":
+		return "strace:execve"
+	case "socket", "connect":
+		return "strace:" + name
+	case "unlink", "unlinkat", "rmdir", "rename", "renameat", "renameat2", "mkdir", "mkdirat", "link", "linkat", "symlink", "symlinkat", "truncate", "creat":
+		return "strace:" + strings.TrimSuffix(strings.TrimSuffix(name, "at2"), "at")
+	case "open", "openat":
+		m := reStr.FindStringSubmatchIndex(rest)
+		if m == nil {
+			return ""
+		}
+		path := rest[m[2]:m[3]]
+		flags := rest[m[1]:]
+		if strings.HasPrefix(path, sentRoot) {
+			return "strace:open-sentinel-path"
+		}
+		for _, w := range []string{"O_WRONLY", "O_RDWR", "O_CREAT", "O_TRUNC", "O_APPEND"} {
+			if strings.Contains(flags, w) {
+				return "strace:open-for-writing"
+			}
+		}
+	}
+	return ""
+}
+
+func straceFamily(funcs []fnRec, tuples []tuple) []*core.Family {
+	run := func(shard uint64) core.Outcome {
+		stracePath, err := exec.LookPath("strace")
+		if err != nil {
+			return core.Outcome{Skipped: true}
+		}
+		sent.init() // scratch root exists
+		trace := filepath.Join(scratchRoot, fmt.Sprintf("trace-%d-%d.txt", os.Getpid(), shard))
+		defer os.Remove(trace)
+		exe, _ := os.Executable()
+		cmd := exec.Command(stracePath, "-f", "--seccomp-bpf", "-qq", "-s", "4096", "-e", "signal=none", "-e", traceSet, "-o", trace,
+			exe, "-straceinner", fmt.Sprint(shard), fmt.Sprint(straceShards))
+		cmd.Stdout, cmd.Stderr = nil, nil
+		if err := cmd.Run(); err != nil {
+			if _, statErr := os.Stat(trace); statErr != nil {
+				return core.Outcome{Skipped: true} // tracing not permitted here
+			}
+		}
+		fh, err := os.Open(trace)
+		if err != nil {
+			return core.Outcome{Skipped: true}
+		}
+		defer fh.Close()
+		// the traced process has its own sentinel: /tmp/c08/<its pid>; every
+		// path under the scratch root counts as sentinel
+		var viols []*core.Violation
+		seen := map[string]bool{}
+		var regions, lines uint64
+		in := false
+		var cur uint64
+		sc := bufio.NewScanner(fh)
+		sc.Buffer(make([]byte, 1<<20), 1<<26)
+		for sc.Scan() {
+			m := reLine.FindStringSubmatch(sc.Text())
+			if m == nil {
+				continue
+			}
+			name, rest := m[2], m[3]
+			if name == "openat" && strings.Contains(rest, `"/C08MARK/`) {
+				sm := reStr.FindStringSubmatch(rest)
+				parts := strings.Split(sm[1], "/")
+				n, _ := strconv.ParseUint(parts[len(parts)-1], 10, 64)
+				if parts[2] == "b" {
+					in, cur = true, n
+					regions++
+				} else {
+					in = false
+				}
+				continue
+			}
+			if !in {
+				continue
+			}
+			lines++
+			cl := classify(name, rest, scratchRoot+"/")
+			if cl == "" {
+				continue
+			}
+			c := straceDecode(cur)
+			f := funcs[c.fn]
+			e := refExpect(f.declared, c.req)
+			key := fmt.Sprintf("fn=%s %s sp=%s clause=%s", f.name, e.class, spellings[c.sp].class, cl)
+			if seen[key] {
+				continue
+			}
+			seen[key] = true
+			viols = append(viols, &core.Violation{Key: key,
+				Detail: fmt.Sprintf("%s\nsystem call inside the iosafe region (strace -f):\n%s", straceShow(funcs, cur), sc.Text())})
+		}
+		total := straceTotal(len(funcs))
+		want := (total - shard + straceShards - 1) / straceShards
+		out := core.Outcome{Viols: viols, NonTrivial: true, States: regions, Trans: lines,
+			Sig: core.Hash64(fmt.Sprintf("%d/%d", shard, len(viols)))}
+		if regions != want {
+			out.Viols = append(out.Viols, &core.Violation{
+				Key:    "strace harness: traced sub-process did not complete its regions",
+				Detail: fmt.Sprintf("shard %d: %d of %d regions seen in the trace", shard, regions, want)})
+		}
+		return out
+	}
+	return []*core.Family{{
+		Name: "strace", Size: straceShards, Run: run, HangSeconds: 1200,
+		Show: func(i uint64) string {
+			return fmt.Sprintf("strace -f of regions %d, %d+%d, ... of %d (fn x {iosafe, iosafe+cpusafe+memsafe, all} x quick tuples x spellings)", i, i, straceShards, straceTotal(len(funcs)))
+		},
+	}}
+}
